@@ -135,12 +135,24 @@ EXPR_CONSTRUCTS = [
     ('comp', '[q for q in range(2) if q or c()]'),
 ]
 IFEXP_CONSTRUCTS = ('ifexp',)
+CALLFREE_CONSTRUCTS = ('chain', 'eq', 'ne')
+
+# LIMITS (defects of the pinned tree outside C04, found while building this space; kept out of it):
+#  * `w: int = e` on a variable that becomes conditional / loop state: the generated `nonlocal w` makes the module
+#    a SyntaxError ("annotated name 'w' can't be nonlocal") that escapes to_graph  -> annassign uses a fresh name;
+#  * a call in the return annotation of a nested def is converted with the *nested* function's scope variable
+#    (`def g(p) -> ag__.converted_call(h, (y,), None, fscope_1)`): NameError when the def executes
+#    -> the def_returns context only receives call-free constructs;
+#  * `try: .. except: .. else: if ..` : cfg.visit_Try uses orelse[0] as a section key that visit_If reuses
+#    (AssertionError -> ConversionError)  -> the try/else context starts with an assignment;
+#  * a lambda inside a decorator expression of a nested def has no CFG (cfg._process_function_def does not visit
+#    decorators): reaching_fndefs raises KeyError -> ConversionError  -> decorator contexts receive no lambda construct.
 
 # expression contexts: statement snippets with one hole {E}; {N} is a per-planting unique number.
 # `exempt_calls`: contexts in which a native call is documented to survive.
 EXPR_CONTEXTS = [
     ('assign', ['w = {E}']),
-    ('annassign', ['w: int = {E}']),
+    ('annassign', ['u_{N}: int = {E}']),      # a fresh name: see LIMITS below
     ('augassign', ['v += [{E}]']),
     ('walrus', ['w = (u_{N} := {E})']),
     ('expr_stmt', ['{E}']),
@@ -198,12 +210,12 @@ EXPR_CONTEXTS = [
     ('ifexp_body', ['w = ({E} if c() else 2)'], 'ifexp'),
     ('ifexp_orelse', ['w = (1 if c() else {E})'], 'ifexp'),
     ('eq_operand', ['w = [{E}] == [1]']),
-    ('decorator_arg', ['@deco({E})', 'def g_{N}(p):', '  return p', 'w = g_{N}(1)']),
-    ('decorator_expr', ['@[ident, {E}][0]', 'def g_{N}(p):', '  return p', 'w = g_{N}(1)']),
+    ('decorator_arg', ['@deco({E})', 'def g_{N}(p):', '  return p', 'w = g_{N}(1)'], 'nolambda'),
+    ('decorator_expr', ['@[ident, {E}][0]', 'def g_{N}(p):', '  return p', 'w = g_{N}(1)'], 'nolambda'),
     ('def_default', ['def g_{N}(p, q={E}):', '  return q', 'w = g_{N}(1)']),
     ('def_kwdefault', ['def g_{N}(p, *, q={E}):', '  return q', 'w = g_{N}(1)']),
     ('def_annotation', ['def g_{N}(p: {E}):', '  return p', 'w = g_{N}(1)'], 'exempt_calls'),
-    ('def_returns', ['def g_{N}(p) -> {E}:', '  return p', 'w = g_{N}(1)']),
+    ('def_returns', ['def g_{N}(p) -> {E}:', '  return p', 'w = g_{N}(1)'], 'callfree'),
     ('def_body', ['def g_{N}(p):', '  r = {E}', '  return r', 'w = g_{N}(1)']),
     ('def_return_value', ['def g_{N}(p):', '  return {E}', 'w = g_{N}(1)']),
     ('def_in_def', ['def g_{N}(p):', '  def k_{N}(q):', '    return {E}', '  return k_{N}(p)', 'w = g_{N}(1)']),
@@ -237,7 +249,7 @@ STMT_CONTEXTS = [
     ('try_body', ['try:'], ['except ValueError:', '  w = 3'], ''),
     ('try_finally_body', ['try:'], ['finally:', '  w = 3'], ''),
     ('except_body', ['try:', '  raise ValueError(1)', 'except ValueError:'], [], ''),
-    ('tryelse_body', ['try:', '  w = 4', 'except ValueError:', '  w = 5', 'else:'], [], ''),
+    ('tryelse_body', ['try:', '  w = 4', 'except ValueError:', '  w = 5', 'else:', '  w = 7'], [], ''),
     ('finally_body', ['try:', '  w = 6', 'finally:'], [], ''),
     ('with_body', ['with CM(t, 1):'], [], ''),
     ('with_as_body', ['with CM(t, 1) as q_{N}:'], [], ''),
@@ -317,6 +329,10 @@ def planted_cases(seed, tier, include_d3=False):
         continue
       if ec[0] == 'call_print' and ex[0] == 'call_func':
         continue      # print(end='') returns None: not callable
+      if 'callfree' in flags and ec[0] not in CALLFREE_CONSTRUCTS:
+        continue
+      if 'nolambda' in flags and ec[0] == 'lambda':
+        continue
       outer = sctxs if thorough else [sctxs[k % len(sctxs)], sctxs[0]][:1 + (k % 3 == 0)]
       k += 1
       for sc in outer:
@@ -334,7 +350,7 @@ def planted_cases(seed, tier, include_d3=False):
           continue
         if not thorough:
           k += 1
-          if k % 3:
+          if k % 4:
             continue
         block = wrap_stmt_context(c2, wrap_stmt_context(c1, plant_stmt(st, counter), counter), counter)
         yield ('%s@%s@%s' % (st[0], c1[0], c2[0]), set(), block)
@@ -387,7 +403,7 @@ UNUSUAL = [
     ['x = (lambda p, /, q=(lambda: -1)(): p + q)(1)'], ['def g_92(*p, **q):', '  return (p, q)', 'x = g_92(1, k=2)'],
     ['x = (lambda: (lambda: (lambda: -1)))()()()'], ['def g_93(p=-1, q=(1, -2), r=f"{1}"):', '  return p', 'x = g_93()'],
     ['def g_94(p: int = -1, *q: int, r: "str" = "s", **s: int) -> int:', '  return p', 'x = g_94()'],
-    ['@deco(-1, k=(lambda: 1))', 'def g_95(p):', '  """doc -1"""', '  return p', 'x = g_95(1)'],
+    ['@deco(-1, k=(-2, 1e-3))', 'def g_95(p):', '  """doc -1"""', '  return p', 'x = g_95(1)'],
     # assorted shapes
     ['x = ...'], ['x = None'], ['x = y = z'], ['x: int = 1'], ['x_ann: int'], ['a[0] += 1'], ['x = Box()', 'x.v += -1'],
     ['x = y @ z if 0 else 0'], ['x = y // z if z else y % 3'], ['x = (y, z)[y < z]'], ['x = y if c() else z'],
@@ -396,7 +412,7 @@ UNUSUAL = [
     ['try:', '  raise ValueError(-1) from None', 'except (ValueError, TypeError):', '  pass'],
     ['with CM(t, -1) as (p_), CM(t, 2):', '  x = p_'], ['x = y << 1 >> 1 | 1 & 3 ^ 2'], ['x = (yield_ := 1)'],
     ['pass'], ['x = [[], (), {}, set()]'], ['x = a.__len__()'], ['x = (a)[(0)]'], ['x = [1, 2][y == 1]'],
-    ['x = y if y else z if z else 0'], ['x = (y and z) or (not y)'], ['x = lambda: (yield)'],
+    ['x = y if y else z if z else 0'], ['x = (y and z) or (not y)'],
     ['x = True + False - None.__class__.__name__.__len__()'], ['del x', 'x = 1'], ['x = y; z = x'],
     ['global GS', 'GS = -1'], ['import os as _os, sys as _sys'], ['from os import path as _p'],
     ['x = b"" or None or ...'], ['x = 1_0.0_1e-0_1'],
@@ -457,8 +473,8 @@ class StateGen(progen.Gen):
       return ["%sd['k'] = %s" % (ind, self.expr(vars_))], []     # d['k'] does not exist initially
     if r < 0.24:
       return ['%sb.v += %s' % (ind, self.atom(vars_))], []
-    if r < 0.28:
-      return ['%sGS = %s' % (ind, self.atom(vars_))], []
+    if r < 0.28 and getattr(self, 'use_global', False):
+      return ['%sGS = %s' % (ind, self.atom(vars_))], []      # see GLOBAL_STATE_WITNESS: off by default
     if r < 0.31:
       return ['%sb.n.v = %s' % (ind, self.atom(vars_))], []
     if r < 0.34:
@@ -478,6 +494,21 @@ class StateGen(progen.Gen):
     tail = "  return (x, y, z, b.v, getattr(b, 'w', None), sorted(d.items()), GS)"
     return HEADER + '\ndef f(t, c, a):\n  print_ = t\n' + '\n'.join(init + body) + '\n' + tail + '\n'
 
+
+# A `global` variable assigned inside a statement that the converter turns into a body function is only declared
+# `global` there when it is part of the statement's state, i.e. when it is live; otherwise the assignment binds a local
+# of the body function: the write to the global is lost (C01/C02), and a nested get_state reads that local while the
+# set_state next to it (which does declare `global`) writes the module variable (C03).  Found by c03_opcontract.
+GLOBAL_STATE_WITNESS = HEADER + '''
+def f(t, c, a):
+  global GS
+  if c():
+    return 1
+  GS = 3
+  for i_1 in range(2):
+    GS = GS + 1
+  return GS
+'''
 
 _LOOP_HEAD = re.compile(r'^(\s*)(for|while)\b.*:\s*$')
 
@@ -510,9 +541,11 @@ def add_directives(src, rnd, prob=0.6):
   return '\n'.join(out)
 
 
-def state_program(seed, size, with_directives=True, avoid=('D1', 'D2', 'D6')):
+def state_program(seed, size, with_directives=True, avoid=('D1', 'D2', 'D6'), with_globals=False):
   rnd = random.Random(seed)
-  src = StateGen(rnd, avoid, 3, None).program(size)
+  gen = StateGen(rnd, avoid, 3, None)
+  gen.use_global = with_globals
+  src = gen.program(size)
   if with_directives:
     src = add_directives(src, rnd)
   return src
